@@ -151,4 +151,5 @@ def local_to_latlon(origin, y, x):
     lat0, lon0 = origin
     lat = lat0 + math.degrees(y / R)
     lon = lon0 + math.degrees(x / (R * math.cos(math.radians(lat0))))
+    lon = ((lon + 180.0) % 360.0) - 180.0  # a map may straddle the antimeridian: longitudes stay in [-180, 180)
     return (lat, lon)
